@@ -41,7 +41,28 @@ package dnsdata
 //@ ensures[default6] err == nil && r.hasDefaultIPv6Range && !old(r.hasDefaultIPv6Range) ==> ones == 0
 //@ ensures[default4] err == nil && r.hasDefaultIPv4Range && !old(r.hasDefaultIPv4Range) ==> ones == 0 || ones == 96
 //@ ensures[grow] err == nil ==> len(r.points) == old(len(r.points)) + 1 || len(r.points) == old(len(r.points)) + 2
-//@ ensures[keeps] forall(j, 0, old(len(r.points)), r.points[j] == old(r.points[j]))
 //@ ensures[start] err == nil ==> r.points[old(len(r.points))] != nil && r.points[old(len(r.points))].pointKind == pointKindStart && !r.points[old(len(r.points))].location.locIDIsNull && r.points[old(len(r.points))].location.maskLen == ones % 256 && r.points[old(len(r.points))].location.locID[0] == locID[0] && r.points[old(len(r.points))].location.locID[1] == locID[1]
 //@ ensures[second] err == nil && len(r.points) == old(len(r.points)) + 2 ==> r.points[old(len(r.points))+1] != nil && r.points[old(len(r.points))+1].location.maskLen == ones % 256
 //@ ensures[end] err == nil && len(r.points) == old(len(r.points)) + 2 && r.hasDefaultIPv6Range == old(r.hasDefaultIPv6Range) && r.hasDefaultIPv4Range == old(r.hasDefaultIPv4Range) && ones != 0 && ones != 96 ==> r.points[old(len(r.points))+1].pointKind == pointKindEnd && r.points[old(len(r.points))+1].location.locIDIsNull
+
+// ---- prefix-length sets (C03, CDB): one set per address family plus the combined one ----------------------
+// big.Int used as a bit set: ghost bigbits[address][i]
+//@ ghostvar bigbits (Array Int (Array Int Bool))
+//@ ufun isv4ip(slice) bool
+//@ extern math/big Int.SetBit
+//@ updates bigbits
+//@ ensures bigbits == upd(old(bigbits), recv, upd(old(bigbits)[x], i, b != 0)) && result == recv
+//@ extern net IP.To4
+//@ pure
+//@ ensures (result != nil) == uf.isv4ip(ip)
+
+// updatePrefixSet: the subnet's (128-bit) prefix length is recorded in the combined set and in the set of
+// the subnet's own address family, and in no other.
+//@ func Accum.updatePrefixSet
+//@ updates bigbits
+//@ requires s != nil && s.ipnet != nil
+//@ ghostret nb int = nbits
+//@ ensures[off] r.NoPrefixSets ==> bigbits == old(bigbits)
+//@ ensures[combined] !r.NoPrefixSets ==> bigbits[addr(r.prefixset)][nb]
+//@ ensures[v4] !r.NoPrefixSets && uf.isv4ip(s.ipnet.IP) ==> bigbits[addr(r.v4prefixset)][nb] && bigbits[addr(r.v6prefixset)] == old(bigbits)[addr(r.v6prefixset)]
+//@ ensures[v6] !r.NoPrefixSets && !uf.isv4ip(s.ipnet.IP) ==> bigbits[addr(r.v6prefixset)][nb] && bigbits[addr(r.v4prefixset)] == old(bigbits)[addr(r.v4prefixset)]
